@@ -14,6 +14,7 @@ func profileFor(prop string) Profile {
 	switch prop {
 	case "C01":
 		p.PMalformed, p.PInvalidCtx, p.Chain = 0.22, 0.1, 4
+		p.PSingleMal = 0.25
 	case "C02":
 		p.PPrereq, p.PTargets, p.PCtxTargets, p.MaxRules = 0.5, 0.5, 0.3, 4
 	case "C03":
@@ -41,6 +42,7 @@ func profileFor(prop string) Profile {
 		p.PBigSeg, p.PSegmentOp, p.PPrereq, p.MinSegs, p.MaxSegs, p.PMulti, p.MinFlags = 0.7, 0.7, 0.5, 2, 5, 0.5, 2
 	case "C19":
 		p.PMalformed, p.PLoggerOpt, p.PPrereq, p.PSegmentOp, p.MinFlags = 0.25, 0.75, 0.6, 0.4, 2
+		p.PSingleMal = 0.25
 	case "C18":
 		p.Ops = []string{"before", "after", "before", "after", "in"}
 		p.PDateAttr = 0.7
